@@ -11,6 +11,12 @@ the model, hence over every visiting order; no theorem has a hypothesis about th
 call has returned" is `s.closers w = .returned r` (only the call whose CAS succeeded can reach that pc;
 calls whose CAS failed end in `returnedNil`).
 
+Order inside the winning call (scope.go, current code): CAS, `close(done)`, `wg.Wait()`, final pass
+(`registry.Report` / `CachedReport`, NO flush), `registry.purge()`, then `Flush`, then the reporter's `Close`.
+The purge runs before the final flush; what it drops is never a `pre` token, because the final pass has swapped
+every cell before (`Tok.clean` at `purgePc`), so the reporter-visible log shape is what it was:
+`… deliver …, flush[, reporterClose]` (see `complete_close_purges_before_flush` below).
+
 Scope of the statements (what the model does not say):
 * the barrier is for the winning caller (`concurrent_close_returns_early`, known limitation D5b);
 * `close_can_complete` is an existence statement: `Close` now waits for the loop goroutine, hence for a
@@ -70,7 +76,7 @@ theorem close_barrier (k : Nat) (hl cl : Bool) (er : Option Nat) (es : List Ev) 
     have h4 : List.count tok s.issued = 1 := by rw [ht.nodup.count]; simp [hmem]
     simp only [LoopPc.pend, CPc.pend, List.count_nil] at h1
     omega
-  · have := ht.tail6 (by rw [hw0]; simp [ph])
+  · have := ht.tail7 (by rw [hw0]; simp [ph])
     rw [hcl] at this
     exact endsRight_spec cl s.log this
   · have := ht.rc
@@ -254,6 +260,7 @@ theorem no_deadlock (k : Nat) (hl cl : Bool) (er : Option Nat) (es : List Ev) (s
   | returnedNil => rw [hp] at hmid; simp [CPc.midCall] at hmid
   | won => left; exact ⟨0, by simp [step, hp]⟩
   | purgePc => left; exact ⟨0, by simp [step, hp]⟩
+  | flushPc => left; exact ⟨0, by simp [step, hp]⟩
   | reporterClose => left; refine ⟨0, ?_⟩; simp only [step, hp]; split <;> rfl
   | pass p =>
     left
@@ -430,11 +437,16 @@ periodic pass starts and is held inside the reporter call for cell 0 (slow repor
 recorded (still before Close); call 0 wins the CAS; a fourth value is recorded (after Close was called);
 call 0 closes `done`; call 1 loses the CAS and returns nil; call 0 is blocked in `wg.Wait()`; the pass
 finishes (it delivers tokens 0, 1 and the late token 3), the loop takes the `done` case; call 0 runs
-its final pass (delivers token 2), flushes, purges, closes the reporter and returns 7. -/
+its final pass (delivers token 2), purges, flushes, closes the reporter and returns 7.
+(The last six closer events: pick cell 0, deliver, pick cell 1 (empty), "loops over" → `purgePc`, purge →
+`flushPc`, flush → `reporterClose`; the 26th event closes the reporter.) -/
 def demo : List Ev :=
   [.record 0, .record 1, .tick, .loop 0, .loop 0, .loop 0, .record 0, .closer 0 0, .record 1, .closer 0 0, .closer 1 0,
    .loop 0, .loop 1, .loop 0, .loop 2, .loop 0, .exit,
-   .closer 0 0, .closer 0 0, .closer 0 0, .closer 0 0, .closer 0 1, .closer 0 2, .closer 0 0, .closer 0 0, .closer 0 0]
+   .closer 0 0, .closer 0 0,                 -- wait returns, begin
+   .closer 0 0, .closer 0 0, .closer 0 1,    -- cell 0: swap, deliver; cell 1: empty
+   .closer 0 2,                              -- the range loops are over → about to purge (no flush yet)
+   .closer 0 0, .closer 0 0, .closer 0 0]    -- purge, flush, reporter close
 
 /-- the hypotheses of `close_barrier` / `silent_after_close` / `reporter_error_returned` are satisfiable -/
 example :
@@ -473,8 +485,9 @@ example :
     (∀ c, c < 3 → run (init 2 true true (some 7)) (demo ++ [.loop c]) = none) ∧
     (∀ c, c < 3 → run (init 2 true true (some 7)) (demo ++ [.closer 0 c]) = none) := by decide
 
-/-- without an interval, not closable: Close goes straight through (no wait), the log ends with the
-flush, there is no reporter close and the result is nil -/
+/-- without an interval, not closable: Close goes straight through (no wait: CAS, close(done), wait, begin,
+swap, deliver, loops over, purge, flush, return), the log ends with the flush, there is no reporter close
+and the result is nil -/
 example :
     (run (init 1 false false (some 7)) [.record 0, .closer 0 0, .closer 0 0, .closer 0 0, .closer 0 0, .closer 0 0,
         .closer 0 0, .closer 0 1, .closer 0 0, .closer 0 0, .closer 0 0]).map (·.view 1) = some
@@ -482,6 +495,53 @@ example :
         closers := [.returned none],
         log := [.flush, .deliver [{ id := 0, cell := 0, pre := true }], .internal],
         dropped := [], returns := [(0, none)] } := by decide
+
+/-! ### the log of a complete `Close`: final pass, purge, THEN flush, reporter close
+
+One cell, no loop, closable reporter.  A value is recorded before Close; the call wins the CAS, closes `done`,
+does not wait (no loop), starts its final pass, swaps cell 0 and delivers; meanwhile a late value is recorded
+(not `pre`); the range loops are over (choice 1 = K) and the call purges. -/
+def purgeThenFlush : List Ev :=
+  [.record 0, .closer 0 0, .closer 0 0, .closer 0 0, .closer 0 0, .closer 0 0, .closer 0 0, .record 0,
+   .closer 0 1, .closer 0 0]
+
+/-- after the final pass the closer is about to purge: nothing is purged, nothing flushed, the late token
+sits in its cell; after the purge it is about to call `Flush` (`flushPc`): the registry IS purged (the late
+token is dropped) and the log still ends with the delivery — the flush has not happened yet; the next step
+is the flush, the one after it the reporter's `Close`: the log of the complete `Close` is
+`internal, deliver, flush, reporterClose` with the purge before the flush. -/
+theorem complete_close_purges_before_flush :
+    (run (init 1 false true) (purgeThenFlush.take 9)).map (·.view 1) = some
+      { cells := [[{ id := 1, cell := 0, pre := false }]], closed := true, doneClosed := true, purged := false,
+        loop := .exited, closers := [.purgePc],
+        log := [.deliver [{ id := 0, cell := 0, pre := true }], .internal], dropped := [], returns := [] } ∧
+    (run (init 1 false true) purgeThenFlush).map (·.view 1) = some
+      { cells := [[]], closed := true, doneClosed := true, purged := true, loop := .exited, closers := [.flushPc],
+        log := [.deliver [{ id := 0, cell := 0, pre := true }], .internal],
+        dropped := [{ id := 1, cell := 0, pre := false }], returns := [] } ∧
+    (run (init 1 false true) (purgeThenFlush ++ [.closer 0 0])).map (·.view 1) = some
+      { cells := [[]], closed := true, doneClosed := true, purged := true, loop := .exited, closers := [.reporterClose],
+        log := [.flush, .deliver [{ id := 0, cell := 0, pre := true }], .internal],
+        dropped := [{ id := 1, cell := 0, pre := false }], returns := [] } ∧
+    (run (init 1 false true) (purgeThenFlush ++ [.closer 0 0, .closer 0 0])).map (·.view 1) = some
+      { cells := [[]], closed := true, doneClosed := true, purged := true, loop := .exited, closers := [.returned none],
+        log := [.reporterClose, .flush, .deliver [{ id := 0, cell := 0, pre := true }], .internal],
+        dropped := [{ id := 1, cell := 0, pre := false }], returns := [(0, none)] } := by decide
+
+/-- the same as a plain `example`: with the closer at `flushPc` the registry is purged and the last log entry
+is a delivery; one step later the log ends with the flush -/
+example :
+    (run (init 1 false true) purgeThenFlush).map (fun s => (s.closers 0, s.purged, s.log.head?))
+      = some (.flushPc, true, some (.deliver [{ id := 0, cell := 0, pre := true }])) ∧
+    (run (init 1 false true) (purgeThenFlush ++ [.closer 0 0])).map (fun s => (s.closers 0, s.purged, s.log.head?))
+      = some (.reporterClose, true, some .flush) := by decide
+
+/-- a `Close` call never flushes at the end of its pass: from `pick` with every cell visited its next pc is
+`purgePc` and the log is untouched (the loop, at the same point, goes to `pass flush`) -/
+theorem closer_pass_end_no_flush (s : State) (t : Nat) (vis : List Nat) (c : Nat)
+    (hpc : s.closers t = .pass (.pick vis)) (hc : s.cells.length ≤ c) (hall : ∀ j, j < s.cells.length → j ∈ vis) :
+    step s (.closer t c) = some (setC s t .purgePc) := by
+  simp only [step, hpc, passStep_pick_over s vis c hc hall, afterPass]
 
 /-- Close called before the first tick, and between two ticks (a complete periodic pass first) -/
 example :
@@ -500,14 +560,15 @@ Three cells, a loop, a closable reporter whose `Close` returns error 7.  The per
 cells in the order 1, 2, 0 (a value is recorded in cell 1 after its visit); two more values are recorded,
 call 0 wins the CAS, closes `done`, the loop takes the `done` case; the final pass of `Close` visits in
 the order 2, 0, 1 — a different order — and while it is inside the reporter call for cell 2 a value is
-recorded in cell 2 (after Close was called: not `pre`; the purge drops it); then flush, purge, reporter
+recorded in cell 2 (after Close was called: not `pre`; the purge drops it); then purge, flush, reporter
 close, return 7. -/
 def shuffled : List Ev :=
   [.record 0, .record 1, .record 2, .tick, .loop 0, .loop 0,
    .loop 1, .record 1, .loop 0, .loop 2, .loop 0, .loop 0, .loop 0, .loop 3, .loop 0,
    .record 2, .record 0, .closer 0 0, .closer 0 0, .exit, .closer 0 0, .closer 0 0,
-   .closer 0 2, .record 2, .closer 0 0, .closer 0 0, .closer 0 0, .closer 0 1, .closer 0 0, .closer 0 3,
-   .closer 0 0, .closer 0 0, .closer 0 0]
+   .closer 0 2, .record 2, .closer 0 0, .closer 0 0, .closer 0 0, .closer 0 1, .closer 0 0,
+   .closer 0 3,                              -- the range loops are over → about to purge (no flush yet)
+   .closer 0 0, .closer 0 0, .closer 0 0]    -- purge (drops token 6), flush, reporter close
 
 /-- the hypotheses of `close_barrier` are met by a run whose passes visit in the non-index orders
 1, 2, 0 and 2, 0, 1; the conclusion can be read off: the six `pre` tokens are delivered once each, the
